@@ -1,5 +1,6 @@
 SPECIFICATION Spec
 CONSTANT Dev = "none"
 INVARIANT FusionSound
+INVARIANT LpNormSound
 INVARIANT DigitizeLaws
 CHECK_DEADLOCK FALSE
